@@ -2440,13 +2440,10 @@ bool mmd_engine_has_metadata(mmd_engine * e, size_t * end) {
 
 	token * doc = NULL;
 
-	if (old_root &&
-			(old_root->type == DOC_START_TOKEN) &&
-			(old_root->len == e->dstr->currentStringLength)
-	   ) {
-		// Already parsed
-		doc = old_root;
-	} else {
+	// An existing parse tree cannot be trusted here: the caller owns the text
+	// and may have changed it since (a text of the same length looks "already
+	// parsed"), so the metadata is always scanned from the text itself
+	{
 		// Discard metadata gathered by an earlier scan -- it is about to be
 		// gathered again, and the text may have changed since
 		while (e->metadata_stack->size) {
